@@ -31,7 +31,8 @@ STYLE_PROPS = ["FontWeight", "FontStyle", "TextDecoration", "Color", "Background
                "Extent", "Origin", "Position", "Display"]
 BASE = dict(style_density=(0, 4), max_nodes=30, fanout=3, br_styles=False, anim_on_offset=False, props=STYLE_PROPS, hiding=True,
             text_ws=True, xml_safe=True, doc_params=False, anim_counts=(0, 0, 1, 2), exotic_numbers=False, edges=True, preserve=True,
-            timed_regions=False, body_divs=(1, 3), time_density=6)
+            timed_regions=False, body_divs=(1, 3), time_density=6,
+            time_shifts=[Fraction(0), Fraction(0), Fraction(0), Fraction(59), Fraction(3599), Fraction(86399), Fraction(359990)])
 STYLED = gen_model.profile(arbitrary_times=False, **BASE)
 MARKUP = gen_model.profile(arbitrary_times=False, text_markup=True, **dict(BASE, max_nodes=16, ruby=False))
 SUBMS = gen_model.profile(arbitrary_times=True, **dict(BASE, max_nodes=14, time_density=3))
